@@ -631,16 +631,26 @@ Section NetSys.
   Variable polys : list Z.        (* the sharings that exist: no partial verifies under anything else *)
   Hypothesis vpart_polys : forall P r p sg, vpart P r p sg = true -> In P polys.
 
-  Lemma gadm_b_sound y g : gadm_b C idx_of vpart thr_of F_of polys y g = true -> gadm y g.
+  Lemma gadm_b_sound y g : gadm_b C idx_of vpart vrec thr_of F_of polys y g = true -> gadm y g.
   Proof.
     destruct g as [d|j e|j w|[[r p] sg]|b]; simpl; intros H.
     - apply andb_true_iff in H as [H1 H2]. split; [apply Z.leb_le; exact H1|].
       unfold now_dom_b in H2. unfold now_dom, dom_t. apply orb_true_iff in H2 as [H2|H2].
       + left. apply Z.ltb_lt; exact H2.
       + right. apply andb_true_iff in H2 as [A B]. apply Z.leb_le in A, B. split; assumption.
-    - destruct e as [d|d| |rho [bs|]|rho [bs|]|r p sg| |[bs|]|tg g']; simpl; try discriminate; try exact I.
-      + split; [unfold cr; apply Z.eqb_eq; exact H|]. intros bs E; discriminate.
-      + split; [unfold cr; apply Z.eqb_eq; exact H|]. intros bs E; discriminate.
+    - assert (Hserved : forall sy,
+                match sy with
+                | None => true
+                | Some bs => forallb (fun b => negb (vrec (b_round b) (b_prev b) (b_sig b))
+                                               || existsb (fun b' => b_round b' =? b_round b) (y_known y)) bs
+                end = true -> stream_ok y sy).
+      { intros sy Hs bs E b Hb Hv. subst sy. rewrite forallb_forall in Hs. specialize (Hs b Hb).
+        rewrite Hv in Hs. simpl in Hs. apply existsb_exists in Hs as [b' [Hb' Er]]. apply Z.eqb_eq in Er.
+        exists b'. split; assumption. }
+      destruct e as [d|d| |rho sy|rho sy|r p sg| |sy|tg g']; simpl; try discriminate; try exact I.
+      + apply andb_true_iff in H as [H1 H2]. split; [unfold cr; apply Z.eqb_eq; exact H1|apply Hserved; exact H2].
+      + apply andb_true_iff in H as [H1 H2]. split; [unfold cr; apply Z.eqb_eq; exact H1|apply Hserved; exact H2].
+      + apply Hserved; exact H.
       + unfold okgrp. apply Z.eqb_eq; exact H.
     - apply existsb_exists in H as [x [Hx E]]. apply wire_eqb_eq in E. subst; exact Hx.
     - intros P Hv Hf. apply orb_true_iff in H as [H|H].
@@ -654,7 +664,7 @@ Section NetSys.
   Fixpoint gadm_b_run (y : sys) (gs : list gevent) : bool :=
     match gs with
     | [] => true
-    | g :: gs' => gadm_b C idx_of vpart thr_of F_of polys y g && gadm_b_run (gstep y g) gs'
+    | g :: gs' => gadm_b C idx_of vpart vrec thr_of F_of polys y g && gadm_b_run (gstep y g) gs'
     end.
 
   Lemma gadm_b_run_sound gs : forall y, gadm_b_run y gs = true -> gadm_run y gs.
